@@ -955,7 +955,11 @@ fn do_build<K: TKey>(step: &Value, signer: &K) -> Result<Enr<K>, EnrError> {
     apply_builder_calls(&mut b, get(step, "calls"));
     // the same builder may be used again: `rebuild` = build once more after applying `calls2`
     if get(step, "rebuild").as_bool().unwrap_or(false) {
-        let _first = b.build(signer);
+        // `first_signer`: the first record is built with ANOTHER key (of the same scheme), the second with `signer`
+        let _first = match get(step, "first_signer").as_str().and_then(K::named) {
+            Some(k0) => b.build(&k0),
+            None => b.build(signer),
+        };
         apply_builder_calls(&mut b, get(step, "calls2"));
     }
     b.build(signer)
@@ -1208,7 +1212,17 @@ impl<W: Write> Exec<W> {
                     let cc_ab = guarded("compare_content", &mut panics, || x.compare_content(y)).unwrap_or(false);
                     let cc_ba = guarded("compare_content", &mut panics, || y.compare_content(x)).unwrap_or(false);
                     let heq = guarded("hash", &mut panics, || hash_of(x) == hash_of(y)).unwrap_or(false);
+                    // Clone::clone_from: y's clone refreshed in place from x must be x in every respect
+                    let cf = guarded("clone_from", &mut panics, || {
+                        let mut t = y.clone();
+                        t.clone_from(x);
+                        let same = t == *x && hash_of(&t) == hash_of(x) && alloy_rlp::encode(&t) == alloy_rlp::encode(x) && t.compare_content(x);
+                        let nid = t.node_id() == x.node_id() && NodeId::from(t.public_key()) == t.node_id();
+                        (same, nid)
+                    })
+                    .unwrap_or((false, false));
                     json!({"eq_ab": eq_ab, "eq_ba": eq_ba, "ne_ab": ne_ab, "cc_ab": cc_ab, "cc_ba": cc_ba, "hash_eq": heq,
+                           "cf_same": cf.0, "cf_nid": cf.1,
                            "panics": Value::Array(panics)})
                 }
                 let r = match (ea, eb) {
